@@ -59,6 +59,26 @@ for _pid, _what in {
 }.items():
     _default(_pid, _what)
 
+_DED = {
+    "C01": "Discharged for all inputs: the whole read path -- get_node, _traverse_extension, _traverse_from (loop invariant with a ghost key suffix), _traverse, _get, get, exists, __getitem__, __contains__: get(k) = hlk(root node, nibbles(k)) on every database, raising only MissingTrieNode; bytes_to_nibbles and its inverse. The write path (set / delete / squash_changes) is decided by the bounded stand-in only.",
+    "C02": "Discharged: the reference rule (_create_node_to_db_mapping: embedded iff rlp shorter than 32 bytes), the root rule (_set_raw_node), _persist_node, hex-prefix encoding = Yellow-Paper HP with round trip; Lean: uniqueness of the canonical trie and YP => canonical. Shape preservation by the write path is bounded only.",
+    "C03": "Discharged: get (the function get_from_proof evaluates) returns the value the root denotes or raises MissingTrieNode, for every database -- hence soundness of get_from_proof in the ideal-hash reading. _get_proof completeness is bounded only.",
+    "C04": "Discharged: every store write of _persist_node / _set_raw_node is content-addressed and leaves an existing entry unchanged (store-write obligations), ScratchDB never writes the wrapped store while a batch is open and applies deletes only when asked. squash_changes / _complete_pruning frames are bounded only.",
+    "C05": "Discharged: ScratchDB.batch_commit (all-or-nothing on the wrapped store, buffer emptied on both exits). squash_changes itself is bounded only.",
+    "C06": "Discharged: _prune_node (one more pending prune iff the node is hashed), _persist_node / _set_raw_node counting. The accounting of the recursive write path and _complete_pruning are bounded only.",
+    "C07": "Discharged: read path raises MissingTraversalNode / MissingTrieNode only for a hash that is absent from the database (get_node missing case); lookups never modify state (frame obligations). Path-truthfulness of the reported prefix and atomicity of writes are bounded only.",
+    "C08": "Discharged: _traverse_from / _traverse: the node reached holds exactly the keys below the consumed prefix (view equation for an arbitrary continuation), the remainder is a suffix of the key, a non-empty remainder lies strictly inside a leaf / extension path; node classification and key extraction. annotate_node, simulated nodes and traverse_from = traverse are bounded only.",
+    "C12": "Discharged: BinaryTrie._get = blk; _set: view clause for insert / delete / delete-subtrie on all paths, refusal exactly when the walk says so (brefuse), store only grows by content-addressed writes, insert never yields the blank root; get / exists / set / delete / delete_subtrie wrappers (root unchanged on refusal). Canonical form / history independence: Lean B.lean + bounded.",
+    "C13": "Discharged: BinaryTrie._get (the function if_branch_valid evaluates), parse_node and the node encoders. The branch generators of branches.py are bounded only.",
+    "C15": "Discharged: SparseMerkleProof.update -- wrong key size and too-short update lists are refused before any assignment, an update of the tracked key changes only the value, any other update changes only the sibling at the first differing bit and reads only node_updates[branch_point] (bit operations through testbit / bxor, DESIGN 6.3). The synchronisation invariant with the tree is Lean S.lean + bounded.",
+    "C16": "Discharged for all lengths: bytes_to_nibbles / nibbles_to_bytes (element-wise, array encoding) and their inverse lemmas; encode_nibbles = HP and decode_nibbles with hp_roundtrip; encode_to_bin / decode_from_bin with bits_roundtrip; key-path packing round trip (the two real functions executed back to back); encode_kv/branch/leaf_node and parse_node with every rejection case; get_node_type, extract_key, is_leaf_node, is_extension_node, compute_*_key.",
+    "C17": "Discharged: every clause of the property on the six methods of ScratchDB, including the commit loop (invariant over the set of processed keys).",
+    "C18": "Discharged: 40 entry points of HexaryTrie, BinaryTrie, SparseMerkleTree, calc_root, SparseMerkleProof and the branch helpers raise the stated exception on ill-typed / ill-sized arguments before any field, database entry or reference count is written.",
+}
+for _pid, _t in _DED.items():
+    PROPERTY_TEXT[_pid]["level_text"] = PROPERTY_TEXT[_pid]["level_text"] + " DEDUCTIVE PART: " + _t
+    PROPERTY_TEXT[_pid]["explanation"] = PROPERTY_TEXT[_pid]["explanation"] + " DEDUCTIVE PART: " + _t
+
 PROPERTY_TEXT["C09"]["not_decided"] = [
     "termination of the walk ('always terminates with the fog complete'): liveness over all schedules is outside "
     "what function contracts express; observed by the bounded harness, not claimed"]
